@@ -22,6 +22,15 @@ def _self_attr(t: ast.AST) -> str | None:
     return None
 
 
+def _normalised_class(repo: Any, c: ClassInfo) -> ClassInfo:
+    """The class with every method in the canonical spelling of
+    `srcmodel.normalised` (rules of this check match statement shapes)."""
+    import dataclasses
+    from sa.srcmodel import normalised
+    return dataclasses.replace(c, methods={
+        k: normalised(repo, m, c) for k, m in c.methods.items()})
+
+
 def run(ctx: Ctx) -> None:
     ctx.explanation = (
         "Field-write discipline of FigureOfMerit / FigureOfMeritLE decided "
@@ -62,8 +71,8 @@ def run(ctx: Ctx) -> None:
                                "state")):
         ctx.rule(rid, txt)
     repo = ctx.repo
-    fom = repo.cls(OBJ, "FigureOfMerit")
-    le = repo.cls(OBJ, "FigureOfMeritLE")
+    fom = _normalised_class(repo, repo.cls(OBJ, "FigureOfMerit"))
+    le = _normalised_class(repo, repo.cls(OBJ, "FigureOfMeritLE"))
     _write_set(ctx, fom, le)
     _pairing(ctx, fom, le)
     _results_written(ctx, fom)
@@ -339,7 +348,17 @@ def _pairing(ctx: Ctx, fom: ClassInfo, le: ClassInfo) -> None:
             ok = len(eqs) == 1 and len(cols) == 1
             detail = f"{cls.name}.{name}: "
             if ok:
-                e, c = eqs[0].value, cols[0].value
+                from sa.srcmodel import inline_locals as _il
+                e = _il(m.node, eqs[0].value)
+                c = _il(m.node, cols[0].value)
+                # `not (a is None)` is `a is not None`
+                if isinstance(c, ast.UnaryOp) and isinstance(
+                        c.op, ast.Not) and isinstance(
+                        c.operand, ast.Compare) and len(
+                        c.operand.ops) == 1 and isinstance(
+                        c.operand.ops[0], ast.Is):
+                    c = ast.Compare(left=c.operand.left, ops=[ast.IsNot()],
+                                    comparators=c.operand.comparators)
                 real = ast.unparse(e).endswith("system.equations")
                 csrc = ast.unparse(c)
                 # a local that is stored as one of the collections counts
@@ -753,6 +772,14 @@ def _reset(ctx: Ctx, fom: ClassInfo, le: ClassInfo) -> None:
                     cleared.setdefault(f, guard)
             elif isinstance(st, ast.If) and guard is None and not st.orelse:
                 t = st.test
+                if isinstance(t, ast.UnaryOp) and isinstance(
+                        t.op, ast.Not) and isinstance(
+                        t.operand, ast.Compare) and len(
+                        t.operand.ops) == 1 and isinstance(
+                        t.operand.ops[0], ast.Is):
+                    # `not (a is None)` is `a is not None`
+                    t = ast.Compare(left=t.operand.left, ops=[ast.IsNot()],
+                                    comparators=t.operand.comparators)
                 g = None
                 if isinstance(t, ast.Compare) and len(t.ops) == 1 and \
                         isinstance(t.ops[0], ast.IsNot) and isinstance(
